@@ -210,6 +210,7 @@ fn run_behaviour(go: compiler::go::goast::File, seed: u64) -> (String, String, u
         Stop::Failed(_) => "failed".to_string(),
         Stop::Halted(m) => format!("halted:{m}"),
         Stop::Unsupported(w) => format!("unsupported:{w}"),
+        Stop::Invalid(_) => "invalid-go".to_string(),
     };
     (out.stdout, stop, out.goroutines)
 }
@@ -312,6 +313,7 @@ pub fn check_case(sb: &Sandbox, seed: u64, idx: usize, case: &Case, nsched: usiz
                         Stop::Failed(_) => "failed".to_string(),
                         Stop::Halted(m) => format!("halted:{m}"),
                         Stop::Unsupported(w) => format!("unsupported:{w}"),
+                        Stop::Invalid(_) => "invalid-go".to_string(),
                     };
                     if let Some((wout, wstop, wg)) = &whole_behaviour {
                         let unsupported = stop.starts_with("unsupported") || wstop.starts_with("unsupported");
@@ -456,4 +458,11 @@ pub fn replay(file: &Value) -> bool {
 #[allow(dead_code)]
 fn unused(_: &str) -> String {
     s("")
+}
+
+pub fn check_case_debug(sb: &Sandbox, case: &Case) -> Vec<String> {
+    let r = check_case(sb, 0, 0, case, 2, None);
+    let mut out: Vec<String> = r.violations.iter().map(|v| v.what.clone()).collect();
+    out.push(format!("probes: {:?}", r.probes));
+    out
 }
